@@ -210,20 +210,22 @@ def holds (c : SCfg) (o : Oracle) (d : Dir) (fuel : Nat) (observed : List Event)
   observed == s.trace && err == s.err
 
 /-- the part of a trace an observer of the real engine can see: flow entries, and processor
-    executions of the flows in `users` (system-flow processors are the real quota processors); a processor
-    reports its own instance name, i.e. `key` for a node `otherFlow.key` borrowed from another flow -/
-def observable (users : List String) (t : List Event) : List Event :=
+    executions of the flows in `users` (system-flow processors are the real quota processors).  A processor
+    reports WHICH instance it is — `<owning flow>.<key>`: `inst flow nodeKey` is the instance the configuration
+    names by that node key in that flow (`otherFlow.key` names `otherFlow`'s processor `key`; a plain key names
+    the processor of the flow that declares it). -/
+def observable (users : List String) (inst : String → String → String) (t : List Event) : List Event :=
   (t.filter fun
     | .enter _ _ => true
     | .exec f _ _ _ => users.contains f).map fun
     | .enter f d => .enter f d
-    | .exec f k d o => .exec f (bareKey k) d o
+    | .exec f k d o => .exec f (inst f k) d o
 
 /-- `holds` restricted to what is observable -/
-def holdsObs (c : SCfg) (users : List String) (o : Oracle) (d : Dir) (fuel : Nat) (observed : List Event)
-    (err : Option ExecErr) : Bool :=
+def holdsObs (c : SCfg) (users : List String) (inst : String → String → String) (o : Oracle) (d : Dir)
+    (fuel : Nat) (observed : List Event) (err : Option ExecErr) : Bool :=
   let s := stxn c o fuel d
-  observed == observable users s.trace && err == s.err
+  observed == observable users inst s.trace && err == s.err
 
 /-- System flow of one location: every processor of the group wired in sequence,
     `stream start → p₁ → p₂ → … → pₙ → stream end`. -/
@@ -244,14 +246,14 @@ def specCfg (c : Cfg) (order : List String) : SCfg :=
     finish := (fl.filter (·.kind == .sysEnd)).map conv }
 
 /-- Judge of one transaction: `none` = property holds; `some (finding id | "-", message)`. -/
-def judgeTxn (c : SCfg) (users : List String) (o : Oracle) (d : Dir) (observed : List Event)
-    (err : Option ExecErr) : Option (String × String) :=
+def judgeTxn (c : SCfg) (users : List String) (inst : String → String → String) (o : Oracle) (d : Dir)
+    (observed : List Event) (err : Option ExecErr) : Option (String × String) :=
   if !sysQuiet c o then none else
   let fuel := specFuel c
-  if holdsObs c users o d fuel observed err then none
+  if holdsObs c users inst o d fuel observed err then none
   else
     let s := stxn c o fuel d
-    let s := { s with trace := observable users s.trace }
+    let s := { s with trace := observable users inst s.trace }
     let fid := (finding s).getD "-"
     let n := (List.zip observed s.trace).takeWhile (fun p => p.1 == p.2) |>.length
     some (fid, s!"observed-differs-from-reference-at-event {n} (observed {observed.length} events, reference {s.trace.length})")
